@@ -696,6 +696,13 @@ func (env *Environment) handleHooks(workflow workflow.Role, trigger string, weig
 					env.callsPendingAwait[awaitName][awaitWeight] = append(
 						env.callsPendingAwait[awaitName][awaitWeight], call)
 				}
+				if verifhook.Enabled {
+					names, awaits := make([]string, len(callsToStart)), make([]string, len(callsToStart))
+					for i, c := range callsToStart {
+						names[i], awaits[i] = c.GetName(), c.GetTraits().Await
+					}
+					verifhook.Point("env.hooks.start", "env", env.id.String(), "trigger", trigger, "weight", int(weight), "calls", names, "awaits", awaits)
+				}
 				callsToStart.StartAll() // returns immediately (async)
 			}
 		}
@@ -716,6 +723,13 @@ func (env *Environment) handleHooks(workflow workflow.Role, trigger string, weig
 				// respected.
 
 				callErrors = pendingCalls.AwaitAll()
+				if verifhook.Enabled {
+					names := make([]string, len(pendingCalls))
+					for i, c := range pendingCalls {
+						names[i] = c.GetName()
+					}
+					verifhook.Point("env.hooks.awaited", "env", env.id.String(), "trigger", trigger, "weight", int(weight), "calls", names, "errors", len(callErrors))
+				}
 				delete(env.callsPendingAwait[trigger], weight)
 			}
 		}
